@@ -145,6 +145,7 @@ func (srv *Srv) flush(req *SrvReq) {
 	conn := req.Conn
 	tag := req.Tc.Oldtag
 	_ = PackRflush(req.Rc)
+	verifPoint("flush.enter", req)
 	conn.Lock()
 	r := conn.reqs[tag]
 	if r != nil {
@@ -152,6 +153,7 @@ func (srv *Srv) flush(req *SrvReq) {
 		r.flushreq = req
 	}
 	conn.Unlock()
+	verifPoint("flush.chained", req)
 
 	if r == nil {
 		// there are no requests with that tag
@@ -166,6 +168,7 @@ func (srv *Srv) flush(req *SrvReq) {
 		r.status |= reqFlush
 	}
 	r.Unlock()
+	verifPoint("flush.decided", req)
 
 	if (status & (reqWork | reqSaved)) == 0 {
 		r.Respond()
